@@ -58,6 +58,9 @@ class IsPrivateMethod:
 
 @contract(H + "has_property_decorator", props=["C16"], types=dict(func_node=PyNode), returns=Bool)
 class HasPropertyDecorator:
+    def native_domain(func_node):
+        return isinstance(func_node, (ast.FunctionDef, ast.AsyncFunctionDef))
+
     def requires(func_node):
         return func_node is not None
 
@@ -67,6 +70,9 @@ class HasPropertyDecorator:
 
 @contract(H + "_is_countable_method", props=["C16"], types=dict(node=PyNode), returns=Bool)
 class IsCountableMethod:
+    def native_domain(node):
+        return isinstance(node, (ast.FunctionDef, ast.AsyncFunctionDef))
+
     def requires(node):
         return node is not None
 
@@ -159,6 +165,9 @@ def py_count_lemma(body):
 
 @contract(H + "count_methods", props=["C16"], types=dict(class_node=PyNode), returns=Int)
 class CountMethods:
+    def native_domain(class_node):
+        return isinstance(class_node, ast.ClassDef)
+
     def requires(class_node):
         return class_node is not None
 
@@ -197,6 +206,9 @@ def py_loc_lemma(lines):
 
 @contract(H + "count_loc", props=["C16", "C13"], types=dict(class_node=PyNode, source=Str), returns=Int)
 class CountLoc:
+    def native_domain(class_node, source):
+        return isinstance(class_node, ast.ClassDef)
+
     def requires(class_node, source):
         return class_node is not None
 
@@ -243,6 +255,9 @@ def py_metrics(class_node, source, config):
 @contract(PA + "analyze_class", props=["C16"], types=dict(class_node=PyNode, source=Str, config=SRPConfigT),
           returns=ClassMetrics)
 class PyAnalyzeClass:
+    def native_domain(class_node, source, config):
+        return isinstance(class_node, ast.ClassDef)
+
     def requires(class_node, source, config):
         return class_node is not None
 
@@ -275,6 +290,9 @@ class PyWrapFindAllClasses:
 @contract(PA + "PythonSRPAnalyzer.analyze_class", props=["C16"],
           types=dict(self=PyAnalyzerT, class_node=PyNode, source=Str, config=SRPConfigT), returns=ClassMetrics)
 class PyWrapAnalyzeClass:
+    def native_domain(self, class_node, source, config):
+        return isinstance(class_node, ast.ClassDef)
+
     def requires(self, class_node, source, config):
         return class_node is not None
 
@@ -334,7 +352,8 @@ class TsGetClassBody:
         return first_child_of_type(class_node.children, "class_body") == first_child_of_type(rest, "class_body")
 
 
-@contract(TM + "_get_method_name", props=["C16"], types=dict(node=TSNode, child=TSNode), returns=Opt(Str))
+@contract(TM + "_get_method_name", props=["C16"], types=dict(node=TSNode, child=TSNode), returns=Opt(Str),
+          no_selftest=True)  # the random tree generator produces text-less tokens, which parse trees never contain (_nodes.py)
 class TsGetMethodName:
     def requires(node):
         return node is not None
@@ -346,7 +365,8 @@ class TsGetMethodName:
         return first_child_of_type(node.children, "property_identifier") == first_child_of_type(rest, "property_identifier")
 
 
-@contract(TM + "_is_countable_method", props=["C16"], types=dict(node=TSNode, method_name=Opt(Str)), returns=Bool)
+@contract(TM + "_is_countable_method", props=["C16"], types=dict(node=TSNode, method_name=Opt(Str)), returns=Bool,
+          no_selftest=True)
 class TsIsCountableMethod:
     def requires(node):
         return node is not None
@@ -369,7 +389,7 @@ def ts_count_lemma(s):
     return ts_count_from(s) == sum(1 for child in s if ts_is_public_method(child))
 
 
-@contract(TM + "count_methods", props=["C16"], types=dict(class_node=TSNode, class_body=TSNode, method_count=Int, child=TSNode),
+@contract(TM + "count_methods", props=["C16"], no_selftest=True, types=dict(class_node=TSNode, class_body=TSNode, method_count=Int, child=TSNode),
           returns=Int)
 class TsCountMethods:
     def requires(class_node):
@@ -428,7 +448,7 @@ class TsCountLoc:
 TsCalcT = Rec("TypeScriptMetricsCalculator", cls=TM + "TypeScriptMetricsCalculator")
 
 
-@contract(TM + "TypeScriptMetricsCalculator.count_methods", props=["C16"], types=dict(self=TsCalcT, class_node=TSNode), returns=Int)
+@contract(TM + "TypeScriptMetricsCalculator.count_methods", props=["C16"], no_selftest=True, types=dict(self=TsCalcT, class_node=TSNode), returns=Int)
 class TsCalcCountMethods:
     def requires(self, class_node):
         return class_node is not None
@@ -479,7 +499,7 @@ def ts_metrics(class_node, config):
         else ts_metrics_named(class_node, ts_identifier_name(class_node), config)
 
 
-@contract(TA + "TypeScriptSRPAnalyzer.analyze_class", props=["C16"],
+@contract(TA + "TypeScriptSRPAnalyzer.analyze_class", props=["C16"], no_selftest=True,
           types=dict(self=TsAnalyzerT, class_node=TSNode, source=Str, config=SRPConfigT), returns=ClassMetrics)
 class TsAnalyzeClass:
     def requires(self, class_node, source, config):
@@ -771,7 +791,7 @@ class AnalyzePython:
                 for class_node in [node for node in py_walk(py_root(content_of(context))) if isinstance(node, ast.ClassDef)]]
 
 
-@contract(CA + "ClassAnalyzer.analyze_typescript", props=["C16"],
+@contract(CA + "ClassAnalyzer.analyze_typescript", props=["C16"], no_selftest=True,
           types=dict(self=ClassAnalyzerT, context=SrpCtxT, config=SRPConfigT, root_node=Opt(TSNode)), returns=SeqOf(ClassMetrics))
 class AnalyzeTypescript:
     """One metrics record per class_declaration of the file, in document order (nothing without a parser)."""
@@ -861,6 +881,20 @@ def path_text(context):
     return path_str(context.file_path) if context.file_path is not None else ""
 
 
+class _SeverityValue(str):
+    """The value string of a Severity member that natively also compares equal to the member itself."""
+    def __eq__(self, other):
+        return getattr(other, "value", other) == str.__str__(self)
+
+    def __ne__(self, other):
+        return not self.__eq__(other)
+
+    __hash__ = str.__hash__
+
+
+SEV_ERROR = _SeverityValue("error")   # Severity.ERROR, the only severity
+
+
 def srp_message(name, issues):
     """Property text: the message lists exactly the exceeded criteria (with the true counts), comma separated."""
     return f"Class '{name}' may violate SRP: {', '.join(issues)}"
@@ -887,7 +921,7 @@ class GenerateSuggestion:
 class SrpBuildViolation:
     def value(self, metrics, issues, rule_id, context):
         return mk(ViolationT, rule_id=rule_id, file_path=path_text(context), line=metrics["line"], column=metrics["column"],
-                  message=srp_message(metrics["class_name"], issues), severity="error", suggestion=srp_suggestion(issues))
+                  message=srp_message(metrics["class_name"], issues), severity=SEV_ERROR, suggestion=srp_suggestion(issues))
 
     def ensures_header_location(self, metrics, issues, rule_id, context, result):
         # one violation at the class header: the line/column recorded in the metrics, in this file
@@ -930,7 +964,7 @@ def suppressed(metrics, context):
 def srp_violation(metrics, config, context):
     """THE violation of a class: at its header line/column, message listing exactly the exceeded criteria."""
     return violation_of(RULE_ID, path_text(context), metrics["line"], metrics["column"],
-                        srp_message(metrics["class_name"], issues_of(metrics, config)), "error",
+                        srp_message(metrics["class_name"], issues_of(metrics, config)), SEV_ERROR,
                         srp_suggestion(issues_of(metrics, config)))
 
 
